@@ -97,6 +97,71 @@ static COMMON_SEPARATORS: Lazy<HashMap<&'static str, String>> = Lazy::new(|| {
 });
 
 /* ------------------------------------------------------------------------ */
+/*  Verification hooks (feature `verif-hooks`, off by default)              */
+/* ------------------------------------------------------------------------ */
+
+#[cfg(feature = "verif-hooks")]
+pub mod verif_hooks {
+    //! Add-only instrumentation for the external verification harness.
+    pub use super::{PadDirection, RangeSpec, SortDirection, StringOp, TrimDirection};
+    use std::sync::atomic::{AtomicU64, Ordering};
+
+    pub static SPLIT_HIT: AtomicU64 = AtomicU64::new(0);
+    pub static SPLIT_MISS: AtomicU64 = AtomicU64::new(0);
+    pub static SPLIT_BYPASS: AtomicU64 = AtomicU64::new(0);
+    pub static REGEX_HIT: AtomicU64 = AtomicU64::new(0);
+    pub static REGEX_MISS: AtomicU64 = AtomicU64::new(0);
+    pub static MEMO_HIT: AtomicU64 = AtomicU64::new(0);
+    pub static MEMO_MISS: AtomicU64 = AtomicU64::new(0);
+    pub static FAST_SPLIT: AtomicU64 = AtomicU64::new(0);
+
+    #[inline]
+    pub(crate) fn bump(c: &AtomicU64) {
+        c.fetch_add(1, Ordering::Relaxed);
+    }
+
+    /// Empty both process-wide caches.
+    pub fn clear_caches() {
+        super::REGEX_CACHE.clear();
+        super::SPLIT_CACHE.clear();
+    }
+
+    /// (split hit, split miss, split bypass, regex hit, regex miss, memo hit, memo miss, fast split)
+    pub fn counters() -> [u64; 8] {
+        [
+            SPLIT_HIT.load(Ordering::Relaxed),
+            SPLIT_MISS.load(Ordering::Relaxed),
+            SPLIT_BYPASS.load(Ordering::Relaxed),
+            REGEX_HIT.load(Ordering::Relaxed),
+            REGEX_MISS.load(Ordering::Relaxed),
+            MEMO_HIT.load(Ordering::Relaxed),
+            MEMO_MISS.load(Ordering::Relaxed),
+            FAST_SPLIT.load(Ordering::Relaxed),
+        ]
+    }
+
+    pub fn reset_counters() {
+        for c in [
+            &SPLIT_HIT,
+            &SPLIT_MISS,
+            &SPLIT_BYPASS,
+            &REGEX_HIT,
+            &REGEX_MISS,
+            &MEMO_HIT,
+            &MEMO_MISS,
+            &FAST_SPLIT,
+        ] {
+            c.store(0, Ordering::Relaxed);
+        }
+    }
+
+    /// (number of cached regexes, number of cached splits)
+    pub fn cache_sizes() -> (usize, usize) {
+        (super::REGEX_CACHE.len(), super::SPLIT_CACHE.len())
+    }
+}
+
+/* ------------------------------------------------------------------------ */
 /*  Small fast helpers                                                      */
 /* ------------------------------------------------------------------------ */
 
@@ -222,6 +287,8 @@ pub(crate) fn get_cached_split(input: &str, separator: &str) -> Vec<String> {
 
     // Try to get from cache first
     if let Some(cached_split) = SPLIT_CACHE.get(&cache_key) {
+        #[cfg(feature = "verif-hooks")]
+        verif_hooks::bump(&verif_hooks::SPLIT_HIT);
         return cached_split.value().clone();
     }
 
@@ -244,7 +311,13 @@ pub(crate) fn get_cached_split(input: &str, separator: &str) -> Vec<String> {
     // Add to cache
     /* Do not grow indefinitely for huge data */
     if input.len() <= 10_000 && parts.len() <= 1_000 {
+        #[cfg(feature = "verif-hooks")]
+        verif_hooks::bump(&verif_hooks::SPLIT_MISS);
         SPLIT_CACHE.insert(cache_key, parts.clone());
+    }
+    #[cfg(feature = "verif-hooks")]
+    if !(input.len() <= 10_000 && parts.len() <= 1_000) {
+        verif_hooks::bump(&verif_hooks::SPLIT_BYPASS);
     }
 
     parts
@@ -281,9 +354,13 @@ pub(crate) fn get_cached_split(input: &str, separator: &str) -> Vec<String> {
 fn get_cached_regex(pattern: &str) -> Result<Regex, String> {
     // Try to get from cache first
     if let Some(regex) = REGEX_CACHE.get(pattern) {
+        #[cfg(feature = "verif-hooks")]
+        verif_hooks::bump(&verif_hooks::REGEX_HIT);
         return Ok(regex.value().clone());
     }
 
+    #[cfg(feature = "verif-hooks")]
+    verif_hooks::bump(&verif_hooks::REGEX_MISS);
     // Not in cache, compile it
     let regex = Regex::new(pattern).map_err(|e| format!("Invalid regex: {e}"))?;
 
